@@ -229,4 +229,32 @@ theorem ixor_list_refines_partial (l o : List CP) (hw : WInv l) (ho : WInv (ofLi
 example : run [.add (.rng 2 9), .discard (.one 4), .ixor [.rng 0 3]] [.rng 1 3, .rng 5 7]
     = [.one 0, .one 3, .rng 5 9] := by decide
 
+
+/-- **operand = the subset itself**: `s |= s` and `s &= s` leave the set as it is, `s -= s` and
+`s ^= s` empty it; the invariant is kept. -/
+theorem self_operand_refines (l : List CP) (hw : WInv l) :
+    (WInv (iorSelf l) ∧ ∀ x, memL x (iorSelf l) ↔ memL x l) ∧
+    (WInv (isubSelf l) ∧ ∀ x, ¬ memL x (isubSelf l)) ∧
+    (WInv (iandSelf l) ∧ ∀ x, memL x (iandSelf l) ↔ memL x l) ∧
+    (∀ x, ¬ memL x (ixorSelf l)) := by
+  obtain ⟨a1, a2⟩ := step_refines l (.ior l) hw hw
+  obtain ⟨b1, b2⟩ := step_refines l (.isub l) hw hw
+  obtain ⟨c1, c2⟩ := step_refines l (.iand l) hw hw
+  refine ⟨⟨a1, fun x => ?_⟩, ⟨b1, fun x => ?_⟩, ⟨c1, fun x => ?_⟩, fun x h => h⟩
+  · have := a2 x; simp only [step, specStep] at this; rw [iorSelf, this]; exact or_self_iff
+  · have := b2 x; simp only [step, specStep] at this; rw [isubSelf, this]; exact fun h => h.2 h.1
+  · have := c2 x; simp only [step, specStep] at this; rw [iandSelf, this]; exact and_self_iff
+
+/-- **reflected difference** `iterable - s` is the iterable's set minus `s`, for any list of valid
+entries on the left (unsorted, overlapping) -/
+theorem rsub_list_refines (l o : List CP) (hw : WInv l) (ho : AllValid o) :
+    WInv (rsubList l o) ∧ ∀ x, memL x (rsubList l o) ↔ (memL x o ∧ ¬ memL x l) := by
+  obtain ⟨⟨u1, u2⟩, _⟩ := update_refines [] o (by simp [WInv]) ho
+  obtain ⟨b1, b2⟩ := step_refines (update [] o) (.isub l) u1 hw
+  refine ⟨b1, fun x => ?_⟩
+  have := b2 x
+  simp only [step, specStep] at this
+  rw [rsubList, this, u2 x]
+  simp [memL]
+
 end EPV.C13
